@@ -208,11 +208,13 @@ func isUpper(b byte) bool { return 'A' <= b && b <= 'Z' }
 func toLower(b byte) byte { return b + ('a' - 'A') }
 func toUpper(b byte) byte { return b - ('a' - 'A') }
 
-func runtimeHashWithCustomSalt(salt []byte) uint32 {
+func runtimeHashWithCustomSalt(pkgPath string, salt []byte) uint32 {
 	hasher.Reset()
 	if !flagSeed.present() {
-		runtimePkg, _ := sharedCache.ListedPackages.get("runtime")
-		hasher.Write(runtimePkg.GarbleActionID[:])
+		// Use the action ID of the package whose source code we patch the value into,
+		// so that the value stays in sync with that package's cached object file.
+		patchedPkg, _ := sharedCache.ListedPackages.get(pkgPath)
+		hasher.Write(patchedPkg.GarbleActionID[:])
 	} else {
 		hasher.Write(flagSeed.bytes)
 	}
@@ -222,15 +224,16 @@ func runtimeHashWithCustomSalt(salt []byte) uint32 {
 }
 
 // magicValue returns random magic value based
-// on user specified seed or the runtime package's GarbleActionID.
+// on user specified seed or the GarbleActionID of internal/abi,
+// the package which holds the magic value and is a dependency of runtime.
 func magicValue() uint32 {
-	return runtimeHashWithCustomSalt([]byte("magic"))
+	return runtimeHashWithCustomSalt("internal/abi", []byte("magic"))
 }
 
 // entryOffKey returns random entry offset key
 // on user specified seed or the runtime package's GarbleActionID.
 func entryOffKey() uint32 {
-	return runtimeHashWithCustomSalt([]byte("entryOffKey"))
+	return runtimeHashWithCustomSalt("runtime", []byte("entryOffKey"))
 }
 
 func hashWithPackage(pkg *listedPackage, name string) string {
